@@ -138,6 +138,10 @@ NumLits == {"0", "1", "2"}
 (*              Tokenizer::sizeofAddParentheses need not find the operand)   *)
 (*   "notcast"  ! ( T ) e  is printed  ! ( ( T ) e )   (the pattern          *)
 (*              "! ( %name% )" of simplifyRedundantParentheses cannot match) *)
+(*   "angle"    the operator > is printed as >= : same grammar level and    *)
+(*              associativity, hence the same tree shape and the same      *)
+(*              expected edges (in C++ mode cppcheck takes  x < ... > y      *)
+(*              for template brackets and constant-folds the "arguments")   *)
 (* A disputed statement belongs to the class iff its repaired print is       *)
 (* judged correct (MODE = "repair" writes the repaired statements, the       *)
 (* usual judge decides).  Anything else keeps its own per-statement key.     *)
@@ -168,7 +172,7 @@ Lay(t, cpp) ==
              o == Len(L.toks) + 1
              \* right operand: assignment (right-associative) wants an assignment-expression, the others the next level
              R == Move(IF t.op \in AsgOps THEN Child(t.y, 2, cpp) ELSE Child(t.y, lv + 1, cpp), o)
-         IN  [toks |-> L.toks \o <<t.op>> \o R.toks, root |-> o,
+         IN  [toks |-> L.toks \o <<IF Repair = "angle" /\ t.op = ">" THEN ">=" ELSE t.op>> \o R.toks, root |-> o,
               edges |-> L.edges \cup R.edges \cup {<<o, L.root, R.root>>}, opt |-> L.opt \cup R.opt]
     [] t.k = "pre" ->
          LET X == Move(IF t.op \in {"++", "--"} THEN UChild(t.x, cpp)
